@@ -143,7 +143,7 @@ def PitfallFormula(v, d, ny, nz, k, formula_class=CNF):
         for (s, PPP) in zip(S, combinations(PP, len(PP) - 1)):
             CP = list(PPP)
             CS = C
-            if len(CS) + 1 == len(S):
+            if len(CS) + 1 == len(S) and len(CS) > nx:
                 # C_{m+n} does not contain z_1
                 del CS[nx]
             phi.add_clause(CY + CP + CS + [-s])
